@@ -16,7 +16,8 @@ RULE = ('strings: every string of length 0..5 (quick) / 0..6 (thorough) over the
         'again in the opposite order (no dependence on what was validated before). ctor: each message class x each name-carrying argument x '
         'valid / invalid / empty value: if the message is built, every name in its encoded header is grammar-valid. '
         'Non-trivial = the string (or the string with one character deleted) is accepted by at least one recogniser; '
-        'distinct = distinct string / constructor case.')
+        'distinct = distinct string / constructor case. lookalikes also inserts every ASCII punctuation character and formatting '
+        'snippets (%s, %d, {}, backslash ...) into valid names: verdict and kind of rejection are judged.')
 ASSUMPTIONS = ['refcodec recognisers are the trusted statement of the grammar (self-tested on every run)']
 
 ALPHABET = ['a', '1', '_', '.', '-', ':', '/', 'é', ' ', '\n']
@@ -189,6 +190,11 @@ def affixed_name(draw, kind):
     return base + ch if draw(st.integers(0, 3)) else ch + base
 
 
+# every ASCII punctuation character, and snippets that mean something to string formatting / regular expressions /
+# escaping when a name is quoted in an error text or compiled into a pattern
+ASCII_META = [c for c in map(chr, range(0x21, 0x7f)) if not c.isalnum()] + [
+    '%s', '%d', '%(a)s', '%%', '{}', '{0}', '{a}', '\\n', '\\', '$', '.*', '[a]', '\x7f']
+
 LOOKALIKES = ['\u017f', '\u212a', '\u0130', '\u0131',      # case-fold onto s, k, i, i (re.IGNORECASE lets them through)
               '\uff21', '\uff41', '\uff3f',                 # fullwidth A, a, low line
               '\u00b2', '\u0663', '\uff11',                 # superscript two, Arabic-Indic three, fullwidth one (str.isdigit())
@@ -198,13 +204,15 @@ LOOKALIKES = ['\u017f', '\u212a', '\u0130', '\u0131',      # case-fold onto s, k
 
 def enum_lookalikes(tier):
     """Valid names of every kind with one character replaced by, or extended with, a non-ASCII character that some
-    Unicode-aware operation (case folding, isdigit, isalnum, NFKC) would take for an ASCII one."""
+    Unicode-aware operation (case folding, isdigit, isalnum, NFKC) would take for an ASCII one - or with an ASCII
+    punctuation character / formatting snippet (most give an invalid name; the verdict AND the kind of rejection - a
+    marshalling error, not whatever building the error text raises - are judged)."""
     bases = {'path': ['/a/b1', '/org/x_y'], 'member': ['Ping', 'm_2'], 'iface': ['a.b', 'org.verif.If_1'],
              'error': ['a.b.E', 'org.verif.Error.X9'], 'bus': ['c.d-e', ':1.42', 'org.verif.S0']}
     seen = set()
     for kind, names in bases.items():
         for base in names:
-            for ch in LOOKALIKES:
+            for ch in LOOKALIKES + ASCII_META:
                 for pos in (0, 1, len(base) // 2, len(base) - 1, len(base)):
                     for t in (base[:pos] + ch + base[pos:], base[:pos] + ch + base[pos + 1:]):
                         if t not in seen:
